@@ -14,7 +14,13 @@ MONITORS = {"un_camel": ("m_uncamel", uc_inputs)}
 def run(ctx):
     from contracts import generate_suffix
     MONITORS[generate_suffix.suffix_step.name] = ("m_names", lambda v: None, lambda nm: {"skip_known": True}, 1500)
-    ctx.pyvc([un_camel, generate_suffix.suffix_step], MONITORS)
+    # the underscore name of a function is un_camel of its API name, unaltered (unit shared with C14)
+    import copy as _copy
+    from contracts import ast_nodes as _N
+    fu = _copy.copy(_N.UNITS[0])
+    fu.prop = "C08"
+    MONITORS[fu.name] = ("m_names_e2e", lambda v: None, lambda nm: None, 60)
+    ctx.pyvc([un_camel, generate_suffix.suffix_step, fu], MONITORS)
     # bounded stand-in for the global uniqueness claim (never counted as proved)
     n = 1500 if ctx.tier == "quick" else 30000
     r = ctx.monitor("m_names", "search", n, ctx.seed, json.dumps({"skip_known": True}))
@@ -25,7 +31,7 @@ def run(ctx):
     if r["violation"]:
         ctx.violation("bounded/m_names", {"inputs": r["inputs"], "observed": r["violation"]}, True)
     # file-level names (never counted as proved): no C wrapper defined twice, no Fortran entity declared twice
-    r2 = ctx.monitor("m_names_e2e", "search", 40, ctx.seed)
+    r2 = ctx.monitor("m_names_e2e", "search", 60, ctx.seed)
     ctx.bounded.append({"monitor": "m_names_e2e", "inputs_tried": r2["tried"], "violation": r2["violation"],
                         "kind": "bounded: generated files of 6 libraries x 2 prefixes (overloads with fortran_generic variants, "
                                 "namespaces flattened two deep, static vs instance members, same method names in two classes, "
